@@ -1413,6 +1413,11 @@ func (fr *frame) execIndex(x *ssa.Index, st *State) {
 	case *types.Array:
 		fr.safety("index", fmt.Sprintf("(and (>= %s 0) (< %s %d))", idx.T, idx.T, bt.Len()), "array index out of range", x.Pos())
 		fr.vals[x] = Val{T: fmt.Sprintf("(select %s %s)", base.T, idx.T), Ty: x.Type()}
+	case *types.Basic:
+		// string index
+		fr.safety("index", fmt.Sprintf("(and (>= %s 0) (< %s (strlen %s)))", idx.T, idx.T, base.T), "string index out of range", x.Pos())
+		c.declOnce("strat", "(declare-fun strat (Str Int) Int)\n(assert (forall ((s Str) (i Int)) (! (and (>= (strat s i) 0) (<= (strat s i) 255)) :pattern ((strat s i)))))")
+		fr.vals[x] = Val{T: fmt.Sprintf("(strat %s %s)", base.T, idx.T), Ty: x.Type()}
 	default:
 		fr.unsup("Index on %s", x.X.Type())
 		fr.vals[x] = Val{T: c.declConst("undef", c.sortOf(x.Type())), Ty: x.Type()}
